@@ -256,15 +256,20 @@ def body_resume_ops(H, case, fs):
         def __init__(self, mo):
             self.psi_gradient, self.psi_laplacian = mo.psi_gradient.copy(), mo.psi_laplacian.copy()
 
-    def run(tag, induced_in, steps, errs):
+    def run(tag, induced_in, steps, errs, psi_in=None):
         """`steps` updates of a fresh solver; returns the operators at the first use of every update and
         the final induced potential"""
         solver = S.make_solver(H, dev, opts, A=A0, currents=None)
-        first_use, state = {}, dict(k=0, it=0, induced=induced_in)
+        first_use, first_args, state = {}, {}, dict(k=0, it=0, euler=0, induced=induced_in, psi=psi_in)
 
         def fake_euler(step, psi, abs_sq_psi, mu, epsilon, dt):
             first_use.setdefault(state["k"], Snapshot(solver.operators))
-            return psi, abs_sq_psi, dt
+            first_args.setdefault(state["k"], (psi, abs_sq_psi))
+            state["euler"] += 1
+            # the Euler step answers with some new psi and some |psi|^2 (whatever the kernel computes: in
+            # doubles its |psi|^2 is not bit-for-bit |new psi|^2, so the two are independent unknowns here)
+            nm = f"{tag}_{state['k']}_{state['euler']}"
+            return H.cplxs(f"pe_{nm}_", ns), H.reals(f"xe_{nm}_", ns, lo=0.0, hi=2.0), dt
 
         def fake_observables(psi, dA_dt):
             z = H.array([0.0] * ne) if H.mode == "sym" else np.zeros(ne)
@@ -284,21 +289,27 @@ def body_resume_ops(H, case, fs):
         solver.get_induced_vector_potential = fake_induced
         rs = S.running_state(H, solver)
         for k in range(1, steps + 1):
-            state["k"], state["it"] = k, 0
-            res = solver.update({"step": k, "time": 0.01 * k, "dt": 0.01}, rs, 0.01, psi=psi0, mu=mu0, supercurrent=None, normal_current=None,
-                                induced_vector_potential=state["induced"], applied_vector_potential=None)
+            state["k"], state["it"], state["euler"] = k, 0, 0
+            res = solver.update({"step": k, "time": 0.01 * k, "dt": 0.01}, rs, 0.01, psi=psi0 if state["psi"] is None else state["psi"], mu=mu0,
+                                supercurrent=None, normal_current=None, induced_vector_potential=state["induced"], applied_vector_potential=None)
             state["induced"] = res.A_induced
-        return first_use, state["induced"]
+            state["psi"] = res.psi
+        return first_use, state["induced"], first_args, state["psi"]
 
     zero = S.zeros2(H, ne, 2)
     errs = [1.0, 0.0]  # two Polyak iterations per step, then converged
-    use_full, _ = run("uninterrupted", zero, 2, errs)
+    use_full, _, args_full, _ = run("uninterrupted", zero, 2, errs)
     # the state after the first step of the uninterrupted run
-    use_1, induced_1 = run("uninterrupted", zero, 1, errs)
-    use_res, _ = run("resumed", induced_1, 1, errs)
+    use_1, induced_1, _, psi_1 = run("uninterrupted", zero, 1, errs)
+    use_res, _, args_res, _ = run("resumed", induced_1, 1, errs, psi_in=psi_1)
     H.prove("both runs reach the Euler step", 2 in use_full and 1 in use_res)
     if 2 in use_full and 1 in use_res:
         compare(H, "first use in the resumed step vs. the uninterrupted run's next step", use_res[1], use_full[2], entrywise=False)
+        # ... and the Euler step is entered with the same psi and the same |psi|^2: nothing the solver object
+        # remembers from the previous step (and a saved frame does not hold) may enter
+        (p_r, x_r), (p_f, x_f) = args_res[1], args_full[2]
+        H.prove_conj_eq("the resumed step enters the Euler step with the psi of the uninterrupted run's next step", list(zip(K.elems(p_r), K.elems(p_f))))
+        H.prove_conj_eq("the resumed step enters the Euler step with the |psi|^2 of the uninterrupted run's next step", list(zip(K.elems(x_r), K.elems(x_f))))
 
 
 def body_split(H, case, fs):
